@@ -872,6 +872,9 @@ fn builder_alone_job(seed: u64, j: usize, tier: Tier) -> Outcome {
     // (one job in six - every other Dublin / IPv6 job - runs long enough for the sequence numbers
     // to go round: "can run" is not only about the first rounds)
     let long = r.chance(1, 6) || (protocol == Protocol::Udp && strategy == MultipathStrategy::Dublin && v6 && r.chance(1, 2));
+    // (Dublin adds the round number to a port: from the highest accepted initial sequence the sum
+    // passes 65535 after 1025 rounds - half of those jobs run that long)
+    let very_long = protocol == Protocol::Udp && strategy == MultipathStrategy::Dublin && (64_000..=64_511).contains(&seq) && r.chance(1, 2);
     let b = Builder::new(target)
         .protocol(protocol)
         .multipath_strategy(strategy)
@@ -886,7 +889,7 @@ fn builder_alone_job(seed: u64, j: usize, tier: Tier) -> Outcome {
         .payload_pattern(r.below(256) as u8)
         .tos(r.below(256) as u8)
         .trace_identifier(r.below(65_536) as u16)
-        .max_rounds(Some(if long { 120 } else { 3 }))
+        .max_rounds(Some(if very_long { 1100 } else if long { 120 } else { 3 }))
         .min_round_duration(Duration::from_millis(*r.pick(&[0u64, 20, 50])))
         .max_round_duration(Duration::from_millis(*r.pick(&[20u64, 50, 10])))
         .grace_duration(Duration::from_millis(*r.pick(&[0u64, 5, 100])))
